@@ -251,7 +251,7 @@ func writeEvidence(a *Analyzer, res *Results, prop, tier, outDir string, obls []
 	seed := 0
 	fmt.Sscanf(os.Getenv("VERIF_SEED"), "%d", &seed)
 	cov := map[string]interface{}{
-		"explanation":         propExplanation[prop],
+		"explanation":         explanationFor(prop, obls),
 		"packages":            pkgs,
 		"functions_analysed":  len(a.P.Funcs),
 		"rule_instances":      ruleInst,
@@ -284,3 +284,24 @@ func writeEvidence(a *Analyzer, res *Results, prop, tier, outDir string, obls []
 }
 
 var propExplanation = map[string]string{}
+
+func explanationFor(prop string, obls []*Obl) string {
+	var sb strings.Builder
+	sb.WriteString("Static analysis of /repo's current source (type-checked packages, SSA, VTA call graph); nothing is executed. ")
+	if s := propExplanation[prop]; s != "" {
+		sb.WriteString(s + " ")
+	}
+	sb.WriteString("Each rule below is a universally quantified claim over all paths of the program; an obligation is one rule at one effect site on one call path (and case split). Rules decided in this run: ")
+	seen := map[string]bool{}
+	var rules []string
+	for _, o := range obls {
+		if !seen[o.Rule] {
+			seen[o.Rule] = true
+			rules = append(rules, o.Rule+" = "+o.Text)
+		}
+	}
+	sort.Strings(rules)
+	sb.WriteString(strings.Join(rules, "; "))
+	sb.WriteString(". What is NOT decided is listed per property in DESIGN.md §4.")
+	return sb.String()
+}
